@@ -39,6 +39,9 @@ pub struct ChildReport {
     pub teardown_returned: bool,
     pub spin: bool,
     pub stuck: bool,
+    /// while stuck: CPU milliseconds the whole process consumed during the last 10 s of waiting
+    #[serde(default)]
+    pub stuck_cpu_ms: Option<u64>,
     pub accept_none_total: u64,
 }
 
@@ -215,13 +218,22 @@ pub fn child_main(args: &[String]) -> i32 {
             if c2.saturating_sub(c1) > 1_000_000 {
                 report.lock().unwrap().spin = true;
             } else {
-                // give it more time before calling it stuck
+                // give it more time before calling it stuck, and measure what the process does meanwhile
+                let cpu_ms = || unsafe {
+                    let mut ru: libc::rusage = std::mem::zeroed();
+                    libc::getrusage(libc::RUSAGE_SELF, &mut ru);
+                    (ru.ru_utime.tv_sec as u64 + ru.ru_stime.tv_sec as u64) * 1000 + (ru.ru_utime.tv_usec as u64 + ru.ru_stime.tv_usec as u64) / 1000
+                };
+                let cpu0 = cpu_ms();
                 let t = Instant::now();
                 while t.elapsed() < Duration::from_secs(10) {
                     if done.load(Ordering::SeqCst) { return; }
                     std::thread::sleep(Duration::from_millis(50));
                 }
-                report.lock().unwrap().stuck = true;
+                let mut r = report.lock().unwrap();
+                r.stuck = true;
+                r.stuck_cpu_ms = Some(cpu_ms().saturating_sub(cpu0));
+                drop(r);
             }
             let mut r = report.lock().unwrap().clone();
             r.hit = HIT.load(Ordering::SeqCst);
@@ -295,7 +307,7 @@ impl Part for Racer {
     fn name(&self) -> &'static str { "teardown-racer" }
     fn deterministic(&self) -> bool { false }
     fn rule(&self) -> &'static str {
-        "child processes on a multi-thread runtime (1-8 workers, real loopback UDP): scenario in {idle, connected, RPCs in flight both ways, pending dial to a silent address, inbound handshake in progress, explicit shutdown in progress, last handle being dropped}; a harness-supplied tracing subscriber blocks one worker for 50-150 ms at the k-th poll of the connection-manager span or the k-th anemo event while the main thread tears the runtime down (drop, shutdown_timeout, shutdown_background), with handles kept alive or not; oracle: no panic anywhere in the process, teardown returns, and neither during nor after it does a runtime thread spin (accept-None counter racing ahead by >10^6 in 200 ms); a child that is merely slow is inconclusive, never a violation; non-trivial = the pre-emption point was actually hit; distinct by case"
+        "child processes on a multi-thread runtime (1-8 workers, real loopback UDP): scenario in {idle, connected, RPCs in flight both ways, pending dial to a silent address, inbound handshake in progress, explicit shutdown in progress, last handle being dropped}; a harness-supplied tracing subscriber blocks one worker for 50-150 ms at the k-th poll of the connection-manager span or the k-th anemo event while the main thread tears the runtime down (drop, shutdown_timeout, shutdown_background), with handles kept alive or not; oracle: no panic anywhere in the process, teardown returns, and neither during nor after it does a runtime thread spin (accept-None counter racing ahead by >10^6 in 200 ms); a teardown that does not return within 15 s while the process consumes no CPU is a deadlock (violation); a child that is merely slow is inconclusive, never a violation; non-trivial = the pre-emption point was actually hit; distinct by case"
     }
     fn strategy(&self, _t: Tier) -> BoxedStrategy<RaceCase> {
         (1u8..9, 0u8..7, prop::bool::weighted(0.7).prop_map(|m| if m { 0u8 } else { 1u8 }), 0u8..6, any::<u8>(), 0u8..3, any::<bool>())
@@ -314,6 +326,10 @@ impl Part for Racer {
         }
         if rep.spin {
             return Err(Fail::violation("c08:accept-none-hot-loop", format!("runtime teardown {}: a runtime thread spins in the connection manager's accept branch (accept() keeps yielding None; {} iterations counted); case {:?}", if rep.teardown_returned { "returned but left a spinning thread behind" } else { "never returned" }, rep.accept_none_total, c)));
+        }
+        if rep.stuck && rep.stuck_cpu_ms.map_or(false, |ms| ms < 100) {
+            // not slow: idle. Every thread of the process is blocked and the teardown cannot make progress.
+            return Err(Fail::violation("c08:teardown-deadlock", format!("runtime teardown did not return within 15 s and the process consumed only {} ms of CPU during the last 10 s: its threads are blocked for good (deadlock); case {:?}", rep.stuck_cpu_ms.unwrap_or(0), c)));
         }
         if rep.stuck {
             return Err(Fail::Inconclusive(format!("teardown did not return within 15 s without a spin signature; case {:?}", c)));
